@@ -210,7 +210,68 @@ def run(tier: str, seed: int, replay=None) -> int:
         raise tlc.MachineryError("binding self-test failed")
     # ---- return values: encoded result decodes to the value returned ------------------------------
     outputs_roundtrip(ck, seed, tier)
+    repeated_executions(ck)
     return ck.finish()
+
+
+def same(a, b) -> bool:
+    """equality of decoded JSON values, NaN equal to NaN"""
+    if isinstance(a, float) and isinstance(b, float) and a != a and b != b:
+        return True
+    if isinstance(a, list) and isinstance(b, list):
+        return len(a) == len(b) and all(same(x, y) for x, y in zip(a, b))
+    if isinstance(a, dict) and isinstance(b, dict):
+        return a.keys() == b.keys() and all(same(a[k], b[k]) for k in a)
+    return type(a) is type(b) and a == b if isinstance(a, bool) or isinstance(b, bool) else a == b
+
+
+def repeated_executions(ck: Check) -> None:
+    """Bind is a function of (signature, payload) alone: the same payload executed again -- a retry, or a second message with
+    equal arguments -- binds to the same values, whatever the earlier execution did to the objects it was given.  Driven
+    through the processor (actor_run), with actors that change their list / dict arguments in place."""
+    import asyncio
+
+    from repid import BasicConverter, Connection, InMemoryMessageBroker, Router, RouterDefaults
+    from repid._processor import _Processor
+    from repid.converter import DefaultConverter, PydanticConverter
+    from repid.data._parameters import Parameters
+
+    async def go():
+        out = []
+        for conv in (BasicConverter, PydanticConverter, DefaultConverter):
+            broker = InMemoryMessageBroker()
+            conn = Connection(broker)
+            await conn.connect()
+            seen = []
+
+            async def act(xs: list, d: dict, n: int = 0):
+                seen.append((list(xs), dict(d), n))
+                xs.clear()
+                xs.append("leftover")
+                d["extra"] = 1
+                d.pop("k", None)
+            r = Router(defaults=RouterDefaults(converter=conv))
+            r.actor(name="act", queue="q")(act)
+            proc = _Processor(conn)
+            key = broker.ROUTING_KEY_CLASS(id_="m1", topic="act", queue="q")
+            payloads = ['{"xs": ["a", "b"], "d": {"k": 1}}', '{"xs": ["a", "b"], "d": {"k": 1}}', '{"xs": [], "d": {}, "n": 2}',
+                        '{"xs": ["a", "b"], "d": {"k": 1}}', '{"xs": [], "d": {}, "n": 2}']
+            for pl in payloads:
+                await proc.actor_run(r.actors["act"], key, Parameters(), pl, conn)
+            want = [(json.loads(pl)["xs"], json.loads(pl)["d"], json.loads(pl).get("n", 0)) for pl in payloads]
+            out.append((conv.__name__, seen, want))
+        return out
+    loop = asyncio.new_event_loop()
+    try:
+        res = loop.run_until_complete(go())
+    finally:
+        loop.close()
+    for name, seen, want in res:
+        ck.case("repeat" + name)
+        if seen != want:
+            ck.violation(f"{name}: the same payload executed again binds to different values: executions received {seen!r}, the payloads say {want!r}",
+                         {"check": "c08", "part": "repeated_executions", "converter": name})
+    ck.notes["repeated_executions"] = sum(len(s) for _, s, _ in res)
 
 
 def outputs_roundtrip(ck: Check, seed: int, tier: str) -> None:
@@ -229,7 +290,8 @@ def outputs_roundtrip(ck: Check, seed: int, tier: str) -> None:
         if t == 3:
             return rng.random() * 10 ** rng.randint(-5, 10)
         if t == 4:
-            return rng.choice([0, -1, 1.5])
+            # (the non-finite floats travel as Infinity / -Infinity / NaN, which the decoder reads back)
+            return rng.choice([0, -1, 1.5, float("inf"), float("-inf"), float("nan"), 1e308, -0.0])
         if t == 5:
             return [gen(d + 1) for _ in range(rng.randint(0, 4))]
         return {f"k{j}": gen(d + 1) for j in range(rng.randint(0, 4))}
@@ -241,10 +303,16 @@ def outputs_roundtrip(ck: Check, seed: int, tier: str) -> None:
     for _ in range(n):
         val = gen()
         for cls in (BasicConverter, PydanticConverter):
-            enc = cls(plain).convert_outputs(val)
-            if json.loads(enc) != val:
+            try:
+                enc = cls(plain).convert_outputs(val)
+                back = json.loads(enc)
+            except Exception as e:  # noqa: BLE001
                 bad += 1
-                ck.violation(f"{cls.__name__}.convert_outputs({val!r}) decodes to {json.loads(enc)!r}", {"check": "c08", "value": repr(val)})
+                ck.violation(f"{cls.__name__}.convert_outputs({val!r}) raises {type(e).__name__}: {e}", {"check": "c08", "value": repr(val)})
+                break
+            if not same(back, val):
+                bad += 1
+                ck.violation(f"{cls.__name__}.convert_outputs({val!r}) decodes to {back!r}", {"check": "c08", "value": repr(val)})
                 break
         if bad:
             break
